@@ -3,12 +3,12 @@
 Require Extraction.
 Require Import ExtrOcamlBasic.
 From Coq Require Import ZArith List.
-From SQ Require Import Pos PosHist RunList Compute Views HistModel PrnModel PrintModel Bufio PrintOps Fmt FormatModel KmpModel KmpSpec KmpProof FindModel Conc ConcExec ApiSpec.
+From SQ Require Import Pos PosHist RunList Compute CheckLast Views HistModel PrnModel PrintModel Bufio PrintOps Fmt FormatModel KmpModel KmpSpec KmpProof FindModel Conc ConcExec ApiSpec.
 
 Extraction "model.ml"
   Z.add Z.mul Z.sub Z.opp Z.div_eucl Z.compare Z.of_nat Z.to_nat Z.abs Z.eqb Z.ltb Z.leb
   Z.pow Z.max Z.min Z.log2 Z.div Z.modulo
-  ctor ctor_check ctor_check_fast val
+  ctor ctor_check ctor_check_fast ctor_check_last val
   run_history test_number_status hist_base
   fprint_ops run_fprint hangs_pinned span fwd_list eff_hi eff_lo end_of
   format string_of exact_of with_significant hist_base
